@@ -120,6 +120,8 @@ def oracle_unchanged_rebuild(case, obs, stats):
     last time, rewrites no output and returns an equal value."""
     fails = []
     h = case["history"]
+    if dir_size_observed(obs):
+        return []
     for i in range(1, len(h)):
         if h[i][0] == "build" and h[i - 1][0] == "build" and h[i][1] == h[i - 1][1] and h[i][2] == h[i - 1][2]:
             if not obs[i - 1][0].startswith("ok:") or not obs[i][0].startswith("ok:"):
@@ -146,6 +148,12 @@ def oracle_unchanged_rebuild(case, obs, stats):
                 fails.append({"oracle": "second unchanged rebuild runs nothing new", "step": i,
                               "extra": sorted(set(now_inv) - set(prev_inv))})
     return fails
+
+
+def dir_size_observed(obs):
+    """get_size of a directory returns whatever the file system reports for the directory inode; it
+    changes when entries are added, so re-execution after it is not predictable (DESIGN appendix A)"""
+    return any(l.startswith("answer get_size(") and l.endswith("= -1") for st in obs for l in st)
 
 
 ORACLES = {
